@@ -9,7 +9,7 @@ sys.path.insert(0, HERE)
 import build_harness
 t0 = time.time()
 rc = 0
-for tr in ("consts2lean.py", "cxx2lean.py", "layout2lean.py", "syms2lean.py", "asm2lean.py", "arm2lean.py", "mirrors2lean.py"):
+for tr in ("consts2lean.py", "cxx2lean.py", "layout2lean.py", "syms2lean.py", "asm2lean.py", "arm2lean.py", "mirrors2lean.py", "go2lean.py"):
     r = subprocess.run([sys.executable, os.path.join(VERIF, "translate", tr), os.environ.get("JEDI_REPO", "/repo")])
     rc |= r.returncode
 r = subprocess.run(["lake", "build"], cwd=os.path.join(VERIF, "lean"))
